@@ -141,6 +141,9 @@ func c17Sequential(r *zsim.Run) {
 	}
 	zsim.Sleep(500 * time.Millisecond)
 	nops := 4 + o.Intn(16)
+	if r.Tier == "thorough" && o.Intn(4) == 0 {
+		nops = 40 + o.Intn(80) // the thorough tier also draws longer histories
+	}
 	eager := o.Intn(3) == 0
 	nextVal := 0
 	for i := 0; i < nops && !r.Failed(); i++ {
